@@ -1,7 +1,7 @@
 (* Property C10 — accepted DIDs and DID URLs are canonical, decomposable, free of stray parts.
    Pinned statements only.  Byte strings are lists of N; "did:" = [100;105;100;58], ':' = 58. *)
 From Coq Require Import List NArith Bool.
-From IdV Require Import Lib.Outcome Did.DidParse Proofs.DidProofs Proofs.DidUrlProofs Proofs.DidCompleteProofs Proofs.DidTotalProofs Proofs.DidSplitProofs Proofs.DidPctProofs.
+From IdV Require Import Lib.Outcome Did.DidParse Proofs.DidProofs Proofs.DidUrlProofs Proofs.DidCompleteProofs Proofs.DidTotalProofs Proofs.DidSplitProofs Proofs.DidPctProofs Did.TpSetters Proofs.TpSettersProofs.
 Import ListNotations.
 Open Scope N_scope.
 
@@ -179,6 +179,21 @@ Proof. exact wf_url_wfp. Qed.
 Example C10_wfp_example : wfp_url {| u_did := [100;105;100;58;97;58;37;52;49]; u_method := [97]; u_mid := [37;52;49];
                                      u_path := Some [47;112;37;50;70]; u_query := Some [63;113;61;37;52;49]; u_frag := Some [35;102;37;52;49] |}.
 Proof. exact wfp_example. Qed.
+(* the third-party value CoreDID::parse assembles (placeholder, set_method, set_method_id: string splices and offset shifts, modelled in
+   Did/TpSetters.v) holds "did:" m ":" i and answers its accessors with exactly m and i, no path, query or fragment - for EVERY m, i;
+   and the base DIDUrl::join assembles from it (set_path, set_query, set_fragment) answers with exactly the receiver's components *)
+Theorem C10_parse_assembles_value : forall m i,
+  exists t, tp_assemble_did m i = Ok t
+    /\ t_data t = [100; 105; 100; 58] ++ m ++ [58] ++ i
+    /\ tp_method (t_data t) (t_core t) = Ok m /\ tp_method_id (t_data t) (t_core t) = Ok i
+    /\ tp_path (t_data t) (t_core t) = Ok [] /\ tp_query (t_data t) (t_core t) = Ok None /\ tp_fragment (t_data t) (t_core t) = Ok None.
+Proof. exact assemble_did_spec. Qed.
+Theorem C10_join_base_assembled : forall m i p q f,
+  exists t, tp_assemble_base m i p q f = Ok t
+    /\ t_data t = [100; 105; 100; 58] ++ m ++ [58] ++ i ++ p ++ (match q with Some x => 63 :: x | None => [] end) ++ (match f with Some x => 35 :: x | None => [] end)
+    /\ tp_method (t_data t) (t_core t) = Ok m /\ tp_method_id (t_data t) (t_core t) = Ok i
+    /\ tp_path (t_data t) (t_core t) = Ok p /\ tp_query (t_data t) (t_core t) = Ok q /\ tp_fragment (t_data t) (t_core t) = Ok f.
+Proof. exact assemble_base_spec. Qed.
 (* the hypotheses are satisfiable: did:ab:c:d/p?q=1#f *)
 Example C10_wf_example : wf_parts [97; 98] [99; 58; 100] [47; 112] (Some [113; 61; 49]) (Some [102]).
 Proof. constructor; [split; [discriminate|reflexivity] | split; [discriminate|reflexivity] | right; eexists; split; reflexivity
@@ -235,6 +250,8 @@ Print Assumptions C10_set_fragment_reparses_pct.
 Print Assumptions C10_join_sound_pct.
 Print Assumptions C10_eq_iff_same_string_pct.
 Print Assumptions C10_wf_is_wfp.
+Print Assumptions C10_parse_assembles_value.
+Print Assumptions C10_join_base_assembled.
 Print Assumptions C10_eq_iff_ord_equal.
 Print Assumptions C10_ord_antisymmetric.
 Print Assumptions C10_eq_same_hash.
